@@ -30,6 +30,7 @@ type treeAPI struct {
 
 type treeInst struct {
 	empty    bool
+	leaf     bool
 	contains func(p pt) bool
 	nn       func(p pt) pt
 	dist     func(p pt) float64
@@ -54,6 +55,7 @@ func build3(ps []pt) *treeInst {
 	t := model3d.NewCoordTree(cs)
 	return &treeInst{
 		empty:    t.Empty(),
+		leaf:     t.Leaf(),
 		contains: func(p pt) bool { return t.Contains(to3(p)) },
 		nn:       func(p pt) pt { return from3(t.NearestNeighbor(to3(p))) },
 		dist:     func(p pt) float64 { return t.Dist(to3(p)) },
@@ -88,6 +90,7 @@ func build2(ps []pt) *treeInst {
 	t := model2d.NewCoordTree(cs)
 	return &treeInst{
 		empty:    t.Empty(),
+		leaf:     t.Leaf(),
 		contains: func(p pt) bool { return t.Contains(to2(p)) },
 		nn:       func(p pt) pt { return from2(t.NearestNeighbor(to2(p))) },
 		dist:     func(p pt) float64 { return t.Dist(to2(p)) },
@@ -276,6 +279,9 @@ func treeCase(c *vlib.Case, api treeAPI, n, queries int) {
 	}
 	if t.empty != (len(ps) == 0) {
 		c.Violation(key("Empty", "iff-no-points"), fmt.Sprintf("Empty()=%v for %d points", t.empty, len(ps)), base(nil))
+	}
+	if t.leaf != (len(ps) <= 1) {
+		c.Violation(key("Leaf", "iff-at-most-one-point"), fmt.Sprintf("Leaf()=%v for %d points", t.leaf, len(ps)), base(nil))
 	}
 	if len(ps) == 0 {
 		c.Count(pre+".clouds_empty", 1)
